@@ -71,3 +71,38 @@ def _handle_stop_eager(src):
 register("srv_handle_stop_order", span_custom(_S, _handle_stop))
 register("srv_run_loop_exit", span_custom(_S, _run_loop))
 register("srv_handle_stop_eager", span_custom(_H, _handle_stop_eager))
+
+
+_W = "actix-server/src/worker.rs"
+
+
+def _none_arm(src):
+    """the `None` arm of `match ready!(this.conn_rx.poll_recv(cx))` in the `Available` loop of `ServerWorker::poll`:
+    does it look at the `Stop` channel again (demanded by C06, finding F8) or return `Ready` unconditionally?"""
+    m = re.search(r"match\s+ready!\(\s*this\.conn_rx\.poll_recv\(cx\)\s*\)\s*\{", src)
+    if not m:
+        raise Fail("`match ready!(this.conn_rx.poll_recv(cx))` not found in worker.rs")
+    rest = src[m.end():]
+    n = re.search(r"\bNone\s*=>", rest)
+    if not n:
+        raise Fail("`None =>` arm of the connection-channel match not found")
+    # the arm ends where the match closes: first `};` at the nesting depth of the match
+    depth, i, end = 0, n.end(), None
+    while i < len(rest):
+        c = rest[i]
+        if c == "{":
+            depth += 1
+        elif c == "}":
+            if depth == 0:
+                end = i
+                break
+            depth -= 1
+        i += 1
+    if end is None:
+        raise Fail("end of the connection-channel match not found")
+    arm = rest[n.end():end]
+    polls = re.search(r"stop_rx\s*\.\s*poll_recv\(", arm) is not None
+    return "def wkNoneArmPollsStop : Bool := %s" % ("true" if polls else "false"), arm
+
+
+register("srv_worker_none_arm", span_custom(_W, _none_arm))
